@@ -64,6 +64,7 @@ type Case struct {
 	Mgr         string       `json:"mgr,omitempty"`        // pctx: rm | rcm
 	PKind       string       `json:"pkind,omitempty"`      // pctx: how the caller's context is built (pctx.go)
 	PWhen       string       `json:"pwhen,omitempty"`      // pctx: prerun | before | mid | never
+	GraceVal    string       `json:"grace_val,omitempty"`  // boundary grace period (gracebd.go); "" = the usual 10 fake seconds / 40 ms
 }
 
 func (c Case) Key() string { return fmt.Sprintf("%+v", c) }
@@ -168,6 +169,8 @@ type world struct {
 	rRet  map[int]error
 	cRet  map[int]error
 	notes []string
+
+	neverArmed bool // a grace period is configured but no timer appeared within waitTO of the closers running
 }
 
 type call struct {
@@ -548,7 +551,7 @@ func (w *world) tick(d int) {
 		return
 	}
 	armed := w.clk.HasWaiters()
-	seq := w.emitDo(Event{E: "tick", I: d}, func() { w.clk.Step(time.Duration(d) * time.Second) })
+	seq := w.emitDo(Event{E: "tick", I: d}, func() { w.clk.Step(time.Duration(d) * w.c.unit()) })
 	w.mu.Lock()
 	w.armedSeen[seq] = armed
 	w.mu.Unlock()
@@ -603,6 +606,7 @@ type outcome struct {
 	Extra   []finding `json:"-"` // findings decided by the director itself (stress families)
 	Stats   map[string]int `json:"stats,omitempty"`
 	RanBad  bool     `json:"-"`
+	NeverArmed bool  `json:"never_armed,omitempty"`
 }
 
 func (w *world) finish(acc map[int]bool) *outcome {
@@ -628,7 +632,7 @@ func (w *world) finish(acc map[int]bool) *outcome {
 		accepted[k] = v
 	}
 	return &outcome{Case: w.c, Log: append([]Event(nil), w.log...), Hangs: append([]string(nil), w.hangs...),
-		Panics: append([]string(nil), w.panics...), CtxErrs: w.ctxErrs, Armed: armed, Accepted: accepted}
+		Panics: append([]string(nil), w.panics...), CtxErrs: w.ctxErrs, Armed: armed, Accepted: accepted, NeverArmed: w.neverArmed}
 }
 
 func runCase(c Case) *outcome {
@@ -757,6 +761,9 @@ func (w *world) graceArg() *time.Duration {
 	g := time.Duration(graceUnits) * time.Second
 	if w.c.RealClock {
 		g = realGrace
+	}
+	if ns, ok := w.c.graceNs(); ok {
+		g = time.Duration(ns)
 	}
 	return &g
 }
@@ -887,10 +894,17 @@ func runRCM(c Case) *outcome {
 			return w.finish(acc)
 		}
 	}
+	G := c.gUnits()
 	if c.Grace != "none" && c.Grace != "" && len(live) > 0 && !c.RealClock {
 		deadline := time.Now().Add(waitTO)
 		for !w.clk.HasWaiters() && time.Now().Before(deadline) {
 			time.Sleep(50 * time.Microsecond)
+		}
+		if !w.clk.HasWaiters() {
+			// a grace period is configured, every closer is running, and in 6 s nobody created the timer
+			w.mu.Lock()
+			w.neverArmed = true
+			w.mu.Unlock()
 		}
 	}
 	for k := 0; k < c.CloseClosing; k++ {
@@ -905,12 +919,14 @@ func runRCM(c Case) *outcome {
 		}
 	}
 	if c.Grace == "generous" && len(live) > 0 && !c.RealClock {
-		w.tick(3)
+		if g := c.generousTick(); g >= 0 {
+			w.tick(g)
+		}
 	}
 	if c.RealClock && c.Grace != "none" && len(live) > 0 {
 		// wall clock: from here on the grace period may elapse at any moment; what must and must not
 		// happen is judged on the wall-clock stamps by the monitors
-		w.tick(graceUnits)
+		w.tick(G)
 	}
 	var tieDone chan struct{}
 	defer func() {
@@ -925,9 +941,9 @@ func runRCM(c Case) *outcome {
 		last := idx == len(live)-1
 		switch c.Grace {
 		case "exceeded":
-			if idx == c.TickAt {
+			if idx == c.TickAt && !(c.RealClock && c.realEff() > time.Second) {
 				if !c.RealClock {
-					w.tick(graceUnits)
+					w.tick(G)
 				}
 				if !w.expectEv("fatal-missing: grace exceeded with a closer running but no fatal shutdown", "fatal", 0) {
 					return w.finish(acc)
@@ -935,8 +951,8 @@ func runRCM(c Case) *outcome {
 			}
 		case "split":
 			if idx == c.TickAt {
-				w.tick(graceUnits / 2)
-				w.tick(graceUnits - graceUnits/2)
+				w.tick(G / 2)
+				w.tick(G - G/2)
 				if !w.expectEv("fatal-missing: grace exceeded with a closer running but no fatal shutdown", "fatal", 0) {
 					return w.finish(acc)
 				}
@@ -944,7 +960,7 @@ func runRCM(c Case) *outcome {
 		case "tie":
 			if last {
 				tieDone = make(chan struct{})
-				go func() { defer close(tieDone); w.tick(graceUnits) }()
+				go func() { defer close(tieDone); w.tick(G) }()
 			}
 		}
 		w.release(w.cTok[j])
@@ -973,7 +989,7 @@ func runRCM(c Case) *outcome {
 		time.Sleep(2 * realGrace) // the stopped timer must stay quiet after the end
 	}
 	if (c.Grace == "late" || c.Grace == "tie") && !c.RealClock {
-		w.tick(graceUnits) // after the end: the timer must have been stopped / consumed
+		w.tick(G) // after the end: the timer must have been stopped / consumed
 	}
 	for k := 0; k < c.CloseAfter; k++ {
 		if !w.waitCall(w.goClose(m), "Close after Run did not return") {
